@@ -33,6 +33,14 @@ CHECKS = {
              note=_TB + ' Reading: U9/U11 have no implement in the table, ValueError is a permitted refusal there. Ground obligations are '
                   'evaluations of the real functions on the finite set of labels/keys, counted under backend ground-evaluation.',
              technique='contract-based deductive verification (symbolic execution on shape-typed strings -> LIA -> z3) + complete ground evaluation of table keys'),
+ 'C06': dict(category='proof',
+             text='round_up_str_num = exact decimal ceiling for every digit content of every shape (int part 0-6, fraction 0-9 digits, with/without '
+                  'point) x prec 0-5; format_seconds_as_time proved from the callee contract for every double and int in [0,100 h] x prec 0-3 '
+                  '(shape, <60 fields, value in [x-noise, x+10^-prec)); parse_hms exact on 1-3 digit-field shapes with either separator, and '
+                  'exception-total for any text with an unbounded number of fields (loop invariant over abstract values). All obligations z3.',
+             note=_TB + " Assumed: IEEE-754 (x-int(x) exact), '%.17f' % x and float(str) correctly rounded (CPython dtoa), ASCII digit contents. "
+                  'Shapes are bounded by length (superset of the property domain 4/7); a sampled-grid stand-in on the real functions runs as second line.',
+             technique='contract-based deductive verification: symbolic execution over shape-typed strings / float proxy / abstract values with loop cut -> LIA/LRA -> z3'),
 }
 _NYB = 'check not built yet in this build round (planned, see DESIGN.md §5); no claim is made'
-NOT_APPLICABLE = {p: _NYB for p in ['C01','C02','C03','C05','C06','C07','C08','C09','C10','C11','C12','C14','C15','C16','C18']}
+NOT_APPLICABLE = {p: _NYB for p in ['C01','C02','C03','C05','C07','C08','C09','C10','C11','C12','C14','C15','C16','C18']}
